@@ -1195,6 +1195,490 @@ theorem seal_refines (h : MHeap) (a : Addr) (hi : Inv h) :
       | true => exact ⟨by simp [absHeap_set], inv_set h a o o' hi ho h2 h3⟩
       | false => exact ⟨by simp [absHeap_set, absObj], inv_set h a o _ hi ho h2 h3⟩
 
+/-! ## Object.defineProperty / defineProperties / create (§15.2.3.5-7) -/
+
+/-- Object.defineProperty in `StepRefines` form, with the invariants -/
+theorem defn_refines (h : MHeap) (a : Addr) (n : Name) (d : DescArg) (hi : Inv h)
+    (hdev : ∀ o desc, h[a]? = some o → OttoVerif.C07.toPropertyDescriptor d = some desc →
+      devGenericAt o n desc = false ∧ devAccToDataAt o n desc = false) :
+    StepRefines h (.defn a n d) ∧ Inv (step h (.defn a n d)).1 := by
+  refine ⟨step_defineProperty_refines h a n d hi.1 hdev, ?_⟩
+  simp only [step]
+  cases ho : h[a]? with
+  | none => exact hi
+  | some o =>
+    simp only []
+    cases hd : OttoVerif.C07.toPropertyDescriptor d with
+    | none => exact hi
+    | some desc =>
+      simp only []
+      cases hm : defineOwn o n desc with
+      | none => exact hi
+      | some o' =>
+        exact inv_define h a o o' n desc hi ho (WFDesc.weak (toPropertyDescriptor_wf d desc hd)) (hdev o desc ho hd).2 hm
+
+/-- all descriptors of the list convert -/
+def allConv (l : List (Name × DescArg)) : Prop := ∀ nd ∈ l, (OttoVerif.C07.toPropertyDescriptor nd.2).isSome = true
+
+/-- the converted list of §15.2.3.7 step 5 -/
+def convOf : List (Name × DescArg) → List (Name × PD)
+  | [] => []
+  | (n, d) :: t => (n, match OttoVerif.C07.toPropertyDescriptor d with | some m => absDesc m | none => noPD) :: convOf t
+
+theorem convertList_all (l : List (Name × DescArg)) (h : allConv l) : convertList l = some (convOf l) := by
+  induction l with
+  | nil => rfl
+  | cons nd t ih =>
+    obtain ⟨n, d⟩ := nd
+    have h1 := h (n, d) List.mem_cons_self
+    have h2 := ih (fun x hx => h x (List.mem_cons_of_mem _ hx))
+    have hpd := toPropertyDescriptor_refines d
+    cases hd : OttoVerif.C07.toPropertyDescriptor d with
+    | none => rw [hd] at h1; cases h1
+    | some m =>
+      rw [hd] at hpd
+      simp only [Option.map_some] at hpd
+      simp only [convertList, ← hpd, h2, convOf, hd]
+
+theorem convertList_notAll (l : List (Name × DescArg)) (h : ¬ allConv l) : convertList l = none := by
+  induction l with
+  | nil => exact absurd (fun _ hx => by cases hx) h
+  | cons nd t ih =>
+    obtain ⟨n, d⟩ := nd
+    have hpd := toPropertyDescriptor_refines d
+    cases hd : OttoVerif.C07.toPropertyDescriptor d with
+    | none => rw [hd] at hpd; simp only [Option.map_none] at hpd; simp only [convertList, ← hpd]
+    | some m =>
+      have : ¬ allConv t := by
+        intro ht
+        apply h
+        intro x hx
+        rcases List.mem_cons.1 hx with hx | hx
+        · subst hx; simp [hd]
+        · exact ht x hx
+      simp only [convertList, ih this]
+      cases Spec.toPropertyDescriptor d <;> rfl
+
+theorem defineList_throws (l : List (Name × DescArg)) (h : ¬ allConv l) : ∀ o : MObj, (defineList o l).2 = true := by
+  induction l with
+  | nil => exact absurd (fun _ hx => by cases hx) h
+  | cons nd t ih =>
+    obtain ⟨n, d⟩ := nd
+    intro o
+    simp only [defineList]
+    cases hd : OttoVerif.C07.toPropertyDescriptor d with
+    | none => rfl
+    | some m =>
+      have : ¬ allConv t := by
+        intro ht
+        apply h
+        intro x hx
+        rcases List.mem_cons.1 hx with hx | hx
+        · subst hx; simp [hd]
+        · exact ht x hx
+      simp only []
+      cases defineOwn o n m with
+      | none => rfl
+      | some o' => exact ih this o'
+
+/-- **the define-one-at-a-time loop refines "convert all, then define all"** when every
+    descriptor converts (i.e. outside `defineProperties_not_atomic`) and no single definition is
+    in a one-property region -/
+theorem defineList_refines : ∀ (l : List (Name × DescArg)) (o : MObj), WFObj o → allConv l →
+    devList o l = (false, false) →
+    (absObj (defineList o l).1, (defineList o l).2) = defineAll (absObj o) (convOf l) ∧
+    WFObj (defineList o l).1 ∧ (defineList o l).1.proto = o.proto := by
+  intro l
+  induction l with
+  | nil => intro o ho _ _; exact ⟨rfl, ho, rfl⟩
+  | cons nd t ih =>
+    obtain ⟨n, d⟩ := nd
+    intro o ho hall hdev
+    have h1 := hall (n, d) List.mem_cons_self
+    have hall' : allConv t := fun x hx => hall x (List.mem_cons_of_mem _ hx)
+    cases hd : OttoVerif.C07.toPropertyDescriptor d with
+    | none => rw [hd] at h1; cases h1
+    | some m =>
+      simp only [defineList, convOf, defineAll, hd, devList] at hdev ⊢
+      cases hm : defineOwn o n m with
+      | none =>
+        have hr := defineOwnProperty_refines o n m ho (toPropertyDescriptor_wf d m hd)
+          (by simp only [devGenericAt, hm]; cases alookup n o.props <;> simp) (by simp only [devAccToDataAt, hm]; cases alookup n o.props <;> simp)
+        rw [hm] at hr
+        simp only [Option.map_none] at hr
+        simp only [← hr]
+        refine ⟨?_, ho, ?_⟩ <;> first | rfl | trivial
+      | some o' =>
+        rw [hm] at hdev
+        simp only [Prod.mk.injEq, Bool.or_eq_false_iff] at hdev
+        obtain ⟨⟨hg, hg'⟩, ⟨ha, ha'⟩⟩ := hdev
+        have hr := defineOwnProperty_refines o n m ho (toPropertyDescriptor_wf d m hd) hg ha
+        rw [hm] at hr
+        simp only [Option.map_some] at hr
+        simp only [← hr]
+        have hw' := defineOwn_wf o o' n m ho (WFDesc.weak (toPropertyDescriptor_wf d m hd)) ha hm
+        obtain ⟨i1, i2, i3⟩ := ih o' hw' hall' (Prod.ext hg' ha')
+        exact ⟨i1, i2, i3.trans (defineOwn_shape o o' n m hm).1⟩
+
+theorem allConv_of_notAtomic (nd : Name × DescArg) (t : List (Name × DescArg))
+    (h : devNotAtomic (nd :: t) = false) : allConv t := by
+  intro x hx
+  simp only [devNotAtomic, List.any_eq_false] at h
+  have := h x hx
+  cases hc : OttoVerif.C07.toPropertyDescriptor x.2 with
+  | none => simp [hc] at this
+  | some m => rfl
+
+/-- **Object.defineProperties refines §15.2.3.7** outside `defineProperties_not_atomic` and the
+    one-property regions, and keeps the invariants -/
+theorem defs_refines (h : MHeap) (a : Addr) (l : List (Name × DescArg)) (hi : Inv h)
+    (hdev : ∀ o, h[a]? = some o → devList o l = (false, false) ∧ devNotAtomic l = false) :
+    StepRefines h (.defs a l) ∧ Inv (step h (.defs a l)).1 := by
+  simp only [StepRefines, step, Spec.step, absHeap_get]
+  cases ho : h[a]? with
+  | none => exact ⟨⟨rfl, rfl⟩, hi⟩
+  | some o =>
+    obtain ⟨hd1, hd2⟩ := hdev o ho
+    simp only [Option.map_some]
+    by_cases hall : allConv l
+    · obtain ⟨h1, h2, h3⟩ := defineList_refines l o (hi.1 a o ho) hall hd1
+      have hdp : Spec.defineProperties (absObj o) l = (absObj (defineList o l).1, (defineList o l).2) := by
+        simp only [Spec.defineProperties, convertList_all l hall, h1]
+      simp only [hdp]
+      cases hr : defineList o l with
+      | mk o' b =>
+        rw [hr] at h2 h3
+        exact ⟨by cases b <;> simp [absHeap_set], inv_set h a o o' hi ho h2 h3⟩
+    · -- some descriptor does not convert: outside the region it can only be the first one
+      cases l with
+      | nil => exact absurd (fun _ hx => by cases hx) hall
+      | cons nd t =>
+        obtain ⟨n, d⟩ := nd
+        have ht := allConv_of_notAtomic (n, d) t hd2
+        cases hc : OttoVerif.C07.toPropertyDescriptor d with
+        | some m =>
+          exfalso; apply hall
+          intro x hx
+          rcases List.mem_cons.1 hx with hx | hx
+          · subst hx; simp [hc]
+          · exact ht x hx
+        | none =>
+          have hdp : Spec.defineProperties (absObj o) ((n, d) :: t) = (absObj o, true) := by
+            simp only [Spec.defineProperties, convertList_notAll _ hall]
+          simp only [hdp, defineList, hc]
+          refine ⟨by simp [absHeap_set], ?_⟩
+          exact inv_set h a o o hi ho (hi.1 a o ho) rfl
+
+theorem inv_append (h : MHeap) (o' : MObj) (hi : Inv h) (hw : WFObj o')
+    (hp : ∀ p : Nat, o'.proto = some p → p < h.length) : Inv (h ++ [o']) := by
+  obtain ⟨hwf, hpr⟩ := hi
+  constructor
+  · intro b q hq
+    rw [List.getElem?_append] at hq
+    split at hq
+    · exact hwf b q hq
+    · rename_i hb
+      cases hb' : b - h.length with
+      | zero => rw [hb'] at hq; simp at hq; subst hq; exact hw
+      | succ k => rw [hb'] at hq; simp at hq
+  · intro b q p hq hqp
+    rw [List.getElem?_append] at hq
+    split at hq
+    · exact hpr b q p hq hqp
+    · rename_i hb
+      cases hb' : b - h.length with
+      | zero =>
+        rw [hb'] at hq; simp at hq; subst hq
+        have := hp p hqp
+        omega
+      | succ k => rw [hb'] at hq; simp at hq
+
+theorem create_core (h : MHeap) (p : Option Addr) (l : List (Name × DescArg)) (hi : Inv h)
+    (hp : ∀ q : Nat, p = some q → q < h.length)
+    (hdev : devList ⟨p, true, []⟩ l = (false, false)) :
+    (absHeap (if (defineList ⟨p, true, []⟩ l).2 = true then (h, Outcome.typeError, ([] : List Call))
+        else (h ++ [(defineList ⟨p, true, []⟩ l).1], Outcome.ok, [])).1
+      = (if (Spec.defineProperties ⟨p, true, []⟩ l).2 = true then (absHeap h, Outcome.typeError, ([] : List Call))
+        else (absHeap h ++ [(Spec.defineProperties ⟨p, true, []⟩ l).1], Outcome.ok, [])).1 ∧
+     (if (defineList ⟨p, true, []⟩ l).2 = true then (h, Outcome.typeError, ([] : List Call))
+        else (h ++ [(defineList ⟨p, true, []⟩ l).1], Outcome.ok, [])).2
+      = (if (Spec.defineProperties ⟨p, true, []⟩ l).2 = true then (absHeap h, Outcome.typeError, ([] : List Call))
+        else (absHeap h ++ [(Spec.defineProperties ⟨p, true, []⟩ l).1], Outcome.ok, [])).2) ∧
+    Inv (if (defineList ⟨p, true, []⟩ l).2 = true then (h, Outcome.typeError, ([] : List Call))
+        else (h ++ [(defineList ⟨p, true, []⟩ l).1], Outcome.ok, [])).1 := by
+  by_cases hall : allConv l
+  · have hw0 : WFObj (⟨p, true, []⟩ : MObj) := fun kp hkp => by cases hkp
+    obtain ⟨h1, h2, h3⟩ := defineList_refines l ⟨p, true, []⟩ hw0 hall hdev
+    have habs : absObj (⟨p, true, []⟩ : MObj) = ⟨p, true, []⟩ := rfl
+    have hdp : Spec.defineProperties (⟨p, true, []⟩ : SObj) l = (absObj (defineList ⟨p, true, []⟩ l).1, (defineList ⟨p, true, []⟩ l).2) := by
+      simp only [Spec.defineProperties, convertList_all l hall, h1, ← habs]
+    simp only [hdp]
+    cases hr : defineList ⟨p, true, []⟩ l with
+    | mk o' b =>
+      rw [hr] at h2 h3
+      cases b with
+      | true => exact ⟨⟨rfl, rfl⟩, hi⟩
+      | false =>
+        refine ⟨by simp [absHeap], inv_append h o' hi h2 ?_⟩
+        intro q hq
+        rw [h3] at hq
+        exact hp q hq
+  · have hdp : Spec.defineProperties (⟨p, true, []⟩ : SObj) l = (⟨p, true, []⟩, true) := by
+      simp only [Spec.defineProperties, convertList_notAll _ hall]
+    simp only [hdp]
+    have := defineList_throws l hall ⟨p, true, []⟩
+    simp only [this]
+    exact ⟨⟨rfl, rfl⟩, hi⟩
+
+/-- **Object.create refines §15.2.3.5** outside the one-property regions (a failed conversion
+    discards the new object on both sides), and keeps the invariants -/
+theorem create_refines (h : MHeap) (p : Option Addr) (l : List (Name × DescArg)) (hi : Inv h)
+    (hdev : devList ⟨p, true, []⟩ l = (false, false)) :
+    StepRefines h (.create p l) ∧ Inv (step h (.create p l)).1 := by
+  have hlen : (absHeap h).length = h.length := by simp [absHeap]
+  simp only [StepRefines, step, Spec.step, hlen]
+  cases p with
+  | none => simpa using create_core h none l hi (fun q hq => by cases hq) hdev
+  | some pa =>
+    by_cases hpa : pa < h.length
+    · simpa [hpa] using create_core h (some pa) l hi (fun q hq => by cases hq; exact hpa) hdev
+    · simp only [hpa, if_false]; exact ⟨⟨rfl, rfl⟩, hi⟩
+
+/-! ## observations -/
+
+/-- **fromPropertyDescriptor refines §8.10.4** on well-formed stored properties (after fix f48e83f) -/
+theorem fromPropertyDescriptor_refines (p : MProp) (hp : WFProp p) :
+    Spec.fromPropertyDescriptor (absProp p) = OttoVerif.C07.fromPropertyDescriptor p := by
+  obtain ⟨v, ⟨w, e, c⟩⟩ := p
+  cases v with
+  | nil => exact hp.elim
+  | val v => simp [Spec.fromPropertyDescriptor, OttoVerif.C07.fromPropertyDescriptor, absProp, MProp.isDataDescriptor]
+  | gs g s => simp [Spec.fromPropertyDescriptor, OttoVerif.C07.fromPropertyDescriptor, absProp]
+
+/-- **round trip** fromPropertyDescriptor ∘ (create from) toPropertyDescriptor: defining a fresh property
+    from any accepted descriptor object and reading it back gives the §8.12.9-step-4 defaults -/
+theorem descriptor_roundtrip (d : DescArg) (m : MProp) (h : OttoVerif.C07.toPropertyDescriptor d = some m) :
+    OttoVerif.C07.fromPropertyDescriptor (createProp m) =
+      Spec.fromPropertyDescriptor (sCreateProp (absDesc m)) := by
+  have hw : WFDesc m := toPropertyDescriptor_wf d m h
+  rw [← createProp_refines m hw, fromPropertyDescriptor_refines _ (createProp_wf m (WFDesc.weak hw))]
+
+theorem ownKeys_abs (o : MObj) (all : Bool) : ownKeys (absObj o) all = enumerate o all := by
+  simp only [ownKeys, enumerate, absObj, absProps, List.filter_map, List.map_map]
+  congr 1
+  apply List.filter_congr
+  intro kp _
+  simp [Function.comp, enumerable_abs]
+
+theorem isSealed_abs (o : MObj) :
+    ((absObj o).props.all (fun kp => !kp.2.configurable) && !(absObj o).ext) =
+      (if o.ext then false else o.props.all (fun kp => !kp.2.configurable)) := by
+  have : (absObj o).props.all (fun kp => !kp.2.configurable) = o.props.all (fun kp => !kp.2.configurable) := by
+    simp [absObj, absProps, List.all_map, Function.comp_def, configurable_abs]
+  rw [this]
+  simp only [absObj]
+  cases o.ext <;> simp
+
+theorem frozen_prop_abs (p : MProp) (hp : WFProp p) :
+    (match absProp p with | .data _ w _ c => !w && !c | .acc _ _ _ c => !c) = !(p.configurable || p.writable) := by
+  obtain ⟨v, ⟨w, e, c⟩⟩ := p
+  cases v with
+  | nil => exact hp.elim
+  | val v => cases w <;> cases c <;> simp [absProp, tb]
+  | gs g s =>
+    obtain ⟨_, _, hw⟩ := hp
+    simp only at hw
+    subst hw
+    cases c <;> simp [absProp, tb]
+
+theorem frozen_all_abs (l : List (Name × MProp)) (hl : ∀ kp, kp ∈ l → WFProp kp.2) :
+    (absProps l).all (fun kp => match kp.2 with | .data _ w _ c => !w && !c | .acc _ _ _ c => !c)
+      = l.all (fun kp => !(kp.2.configurable || kp.2.writable)) := by
+  induction l with
+  | nil => rfl
+  | cons kp t ih =>
+    have h1 := frozen_prop_abs kp.2 (hl kp List.mem_cons_self)
+    have h2 := ih (fun x hx => hl x (List.mem_cons_of_mem _ hx))
+    simp only [absProps, List.map, List.all_cons] at h2 ⊢
+    rw [h1, h2]
+
+theorem isFrozen_abs (o : MObj) (ho : WFObj o) :
+    ((absObj o).props.all (fun kp => match kp.2 with | .data _ w _ c => !w && !c | .acc _ _ _ c => !c) && !(absObj o).ext) =
+      (if o.ext then false else o.props.all (fun kp => !(kp.2.configurable || kp.2.writable))) := by
+  have := frozen_all_abs o.props ho
+  simp only [absObj] at this ⊢
+  rw [this]
+  cases o.ext <;> simp
+
+theorem isSome_alookup_contains {α} (n : Name) (l : List (Name × α)) :
+    (alookup n l).isSome = (akeys l).contains n := by
+  induction l with
+  | nil => rfl
+  | cons kp t ih =>
+    obtain ⟨k, q⟩ := kp
+    simp only [alookup, akeys, List.map, List.contains_cons] at ih ⊢
+    by_cases hk : k = n
+    · subst hk; simp
+    · have : (n == k) = false := by simp [Ne.symm hk]
+      simp [hk, this, ih]
+
+/-- `seen` (names) describes exactly the own properties of the objects at `prev` -/
+def SeenRel (h : MHeap) (prev : List Addr) (seen : List Name) : Prop :=
+  ∀ n, shadowedBy h prev n = seen.contains n
+
+theorem seenRel_snoc (h : MHeap) (prev : List Addr) (seen : List Name) (a : Addr) (o : MObj)
+    (hr : SeenRel h prev seen) (ho : h[a]? = some o) : SeenRel h (prev ++ [a]) (seen ++ akeys o.props) := by
+  intro n
+  have e : shadowedBy h (prev ++ [a]) n = (shadowedBy h prev n || (alookup n o.props).isSome) := by
+    simp only [shadowedBy, List.any_append, List.any_cons, List.any_nil, Bool.or_false, ho]
+  rw [e, hr n, isSome_alookup_contains, List.contains_append]
+
+/-- **for-in refines §12.6.4** (after fix cb72f5e: own properties first, then the prototype's, a name
+    is skipped when an earlier object of the chain has a property of that name) -/
+theorem forIn_refines (h : MHeap) : ∀ (f : Nat) (x : Option Addr) (prev : List Addr) (seen : List Name),
+    SeenRel h prev seen → Spec.forIn (absHeap h) f x seen = forIn h f x prev := by
+  intro f
+  induction f with
+  | zero => intro x prev seen _; rfl
+  | succ f ih =>
+    intro x prev seen hr
+    cases x with
+    | none => rfl
+    | some a =>
+      simp only [Spec.forIn, forIn, absHeap_get]
+      cases ho : h[a]? with
+      | none => rfl
+      | some o =>
+        simp only [Option.map_some, ownKeys_abs]
+        have hk : akeys (absObj o).props = akeys o.props := by simp [absObj, akeys_absProps]
+        have hp : (absObj o).proto = o.proto := rfl
+        rw [hk, hp, ih o.proto _ _ (seenRel_snoc h prev seen a o hr ho)]
+        congr 1
+        apply List.filter_congr
+        intro n _
+        rw [hr n]
+
+theorem observeName_refines (h : MHeap) (a : Addr) (o : MObj) (ho : WFObj o) (n : Name) :
+    Spec.observeName (absHeap h) a (absObj o) n = observeName h a o n := by
+  have hlk : alookup n (absObj o).props = (alookup n o.props).map absProp := by simp [absObj, alookup_absProps]
+  simp only [Spec.observeName, observeName, get_refines, hasProperty_refines, hlk]
+  cases hl : alookup n o.props with
+  | none => rfl
+  | some p => simp [enumerable_abs, fromPropertyDescriptor_refines p (ho _ (alookup_mem hl))]
+
+/-- every observation of one object (isExtensible/isSealed/isFrozen, keys, getOwnPropertyNames,
+    for-in, and per name: value, in, hasOwnProperty, propertyIsEnumerable, own descriptor) agrees
+    for a well-formed object -/
+theorem observeObj_refines (h : MHeap) (a : Addr) (o : MObj) (ho : WFObj o) :
+    Spec.observeObj (absHeap h) a (absObj o) = observeObj h a o := by
+  simp only [Spec.observeObj, observeObj, isSealed_abs, isFrozen_abs o ho, ownKeys_abs, fuel_absHeap,
+    forIn_refines h (fuel h) (some a) [] [] (fun _ => rfl)]
+  congr 1
+  · exact isFrozen_abs o ho
+  · apply List.map_congr_left
+    intro n _
+    exact observeName_refines h a o ho n
+
+theorem observeFrom_refines (h : MHeap) : ∀ (l : List MObj) (k : Nat),
+    (∀ (i : Nat) (o : MObj), l[i]? = some o → WFObj o) →
+    Spec.observeFrom (absHeap h) k (l.map absObj) = observeFrom h k l := by
+  intro l
+  induction l with
+  | nil => intro k _; rfl
+  | cons o t ih =>
+    intro k hk
+    simp only [List.map, Spec.observeFrom, observeFrom]
+    have h0 := hk 0 o rfl
+    rw [observeObj_refines h k o h0]
+    rw [ih (k + 1) (fun i q hq => hk (i + 1) q (by simpa using hq))]
+
+/-- **all observations agree**: on a well-formed heap the observation vector logged after a
+    step is the ES5 one -/
+theorem observe_refines (h : MHeap) (hw : WFHeap h) : Spec.observe (absHeap h) = observe h := by
+  simp only [Spec.observe, observe]
+  have := observeFrom_refines h h 0 (fun i o hio => hw i o hio)
+  simpa [absHeap] using this
+
+/-! ## every step, every history -/
+
+theorem append_nil_iff {α} (a b : List α) : a ++ b = [] ↔ a = [] ∧ b = [] := by
+  cases a <;> simp
+
+theorem ite_singleton_nil (c : Bool) (s : String) : (if c = true then [s] else []) = [] ↔ c = false := by
+  cases c <;> simp
+
+/-- **every modelled operation**: a step from a heap satisfying the invariants that hits no
+    deviation region refines the ES5 step (same heap under abstraction, same outcome / TypeError,
+    same setter calls) and re-establishes the invariants -/
+theorem step_refines (h : MHeap) (op : Op) (hi : Inv h) (hd : devStep h op (step h op).1 = []) :
+    StepRefines h op ∧ Inv (step h op).1 := by
+  rcases op with ⟨s, a, n, v⟩ | ⟨s, a, n⟩ | ⟨a, n, d⟩ | ⟨a, l⟩ | ⟨p, l⟩ | ⟨a⟩ | ⟨a⟩ | ⟨a⟩
+  · simp only [devStep, append_nil_iff, ite_singleton_nil] at hd
+    exact ⟨put_refines h s a n v hi hd.1.1.1, put_inv h s a n v hi⟩
+  · simp only [devStep, append_nil_iff, ite_singleton_nil] at hd
+    exact ⟨delete_refines h s a n hd.1.1.1, delete_inv h s a n hi⟩
+  · simp only [devStep, append_nil_iff, ite_singleton_nil] at hd
+    have hdev : ∀ o desc, h[a]? = some o → OttoVerif.C07.toPropertyDescriptor d = some desc →
+        devGenericAt o n desc = false ∧ devAccToDataAt o n desc = false := by
+      intro o desc ho hdesc
+      have h1 := hd.1.1.2
+      have h2 := hd.1.2
+      rw [ho, hdesc] at h1 h2
+      exact ⟨h1, h2⟩
+    have := defn_refines h a n d hi hdev
+    exact this
+  · simp only [devStep, append_nil_iff, ite_singleton_nil] at hd
+    have hdev : ∀ o, h[a]? = some o → devList o l = (false, false) ∧ devNotAtomic l = false := by
+      intro o ho
+      have h1 := hd.1.1.2
+      have h2 := hd.1.2
+      have h3 := hd.2
+      rw [ho] at h1 h2 h3
+      exact ⟨Prod.ext h1 h2, by simpa using h3⟩
+    have := defs_refines h a l hi hdev
+    exact this
+  · simp only [devStep, append_nil_iff, ite_singleton_nil] at hd
+    have := create_refines h p l hi (Prod.ext hd.1.1.2 hd.1.2)
+    exact this
+  · simp only [devStep, append_nil_iff, ite_singleton_nil] at hd
+    exact freeze_refines h a hi
+  · simp only [devStep, append_nil_iff, ite_singleton_nil] at hd
+    exact seal_refines h a hi
+  · simp only [devStep, append_nil_iff, ite_singleton_nil] at hd
+    exact ⟨preventExt_refines h a, preventExt_inv h a hi⟩
+
+/-- **history_refines**: any finite history of the modelled operations, started on a heap satisfying
+    the invariants, that stays outside every deviation region, is observationally equal to ES5 –
+    same outcome (incl. TypeError) and setter calls at every step and the same full observation
+    vector after every step. -/
+theorem history_refines_from : ∀ (ops : List Op) (h : MHeap), Inv h → devRun h ops = [] →
+    run h ops = Spec.run (absHeap h) ops := by
+  intro ops
+  induction ops with
+  | nil => intro h _ _; rfl
+  | cons op ops ih =>
+    intro h hi hd
+    simp only [devRun, append_nil_iff] at hd
+    obtain ⟨⟨hs1, hs2⟩, hinv⟩ := step_refines h op hi hd.1
+    have hobs := observe_refines (step h op).1 hinv.1
+    simp only [run, Spec.run]
+    rw [← hs1, ← hobs, ← ih (step h op).1 hinv hd.2]
+    cases hr : step h op with
+    | mk h' oc =>
+      cases hr' : Spec.step (absHeap h) op with
+      | mk sh' soc =>
+        rw [hr, hr'] at hs2
+        simp only at hs2
+        subst hs2
+        rfl
+
+theorem inv_nil : Inv ([] : MHeap) := ⟨fun a o h => by simp at h, fun a o p h => by simp at h⟩
+
+/-- **history_refines** from the empty heap, exactly as the driver runs requests: if the driver reports
+    `dev = -` for a history then model = spec on it. -/
+theorem history_refines (ops : List Op) (hd : devRun [] ops = []) : run [] ops = Spec.run [] ops :=
+  history_refines_from ops [] inv_nil hd
+
 /-! ## Non-vacuity of the hypotheses -/
 
 /-- a heap with a data and an accessor property … -/
@@ -1223,6 +1707,26 @@ example : WFHeap hNV := by
 example : devStep hNV (.defn 0 0 (.obj ⟨some false, none, some false, some 5, .absent, .absent⟩))
     (step hNV (.defn 0 0 (.obj ⟨some false, none, some false, some 5, .absent, .absent⟩))).1 = [] := by decide
 
+/-- `history_refines` is not vacuous: a 10-step history using every kind of operation (prototype
+    chain, inherited setter, accessor definition, defineProperties, sloppy and strict put/delete,
+    seal, freeze, preventExtensions) stays outside every region … -/
+def hNV2 : List Op :=
+  [.create none [(0, .obj ⟨some true, some true, some true, some 4, .absent, .absent⟩)],
+   .create (some 0) [],
+   .defn 0 1 (.obj ⟨some false, some true, none, none, .fn 0, .fn 1⟩),
+   .put false 1 1 5,
+   .defs 1 [(2, .obj ⟨some true, some false, some false, some 6, .absent, .absent⟩)],
+   .put true 0 0 5,
+   .del false 1 2,
+   .seal 1,
+   .freeze 0,
+   .preventExt 1,
+   .defn 0 0 (.obj ⟨none, none, none, some 5, .absent, .absent⟩)]
+example : devRun [] hNV2 = [] := by decide
+/-- … so the theorem applies to it (and the setter really is called through the prototype chain). -/
+example : run [] hNV2 = Spec.run [] hNV2 := history_refines hNV2 (by decide)
+example : ((run [] hNV2)[3]?).map (·.calls) = some [(1, 1, 5)] := by decide
+
 /-! ## Deviation witnesses (each region really deviates; kernel-checked, replayed on the real code) -/
 
 def dE : Desc := ⟨none, none, none, none, .absent, .absent⟩
@@ -1250,10 +1754,11 @@ def wBothUndef : List Op := [.create none [], .defn 0 0 (.obj { dE with g := .un
 example : run [] wBothUndef = Spec.run [] wBothUndef := by decide
 example : devRun [] wBothUndef = [] := by decide
 
-/-- `p={a:1}; c=Object.create(p); c.a=2; for (k in c)` enumerates `a` twice -/
+/-- `p={a:1}; c=Object.create(p); c.a=2; for (k in c)`: the former region `forin_shadowed` is closed by
+    fix cb72f5e (for-in skips shadowed names) – model = spec, no region. -/
 def wForIn : List Op := [.create none [], .put false 0 0 4, .create (some 0) [], .put false 1 0 5]
-example : run [] wForIn ≠ Spec.run [] wForIn := by decide
-example : devRun [] wForIn = ["forin_shadowed"] := by decide
+example : run [] wForIn = Spec.run [] wForIn := by decide
+example : devRun [] wForIn = [] := by decide
 
 /-- `Object.preventExtensions(o); (function(){'use strict'; o.a=1})()` does not throw -/
 def wStrict : List Op := [.create none [], .preventExt 0, .put true 0 0 4]
